@@ -114,17 +114,25 @@ fn main() {
             let mut rng = harness::rng::Rng::new(42);
             for id in 0..harness::synth::N_SCEN {
                 let mut ok = 0;
+                let mut pinned_only_ep = 0;
                 let mut sample = String::new();
                 let n = 300;
                 for _ in 0..n {
                     if let Some(s) = harness::synth::scenario(&mut rng, id) {
                         ok += 1;
+                        if id == 18 {
+                            let f = s.final_pos();
+                            let lm = f.legal_moves();
+                            if lm.len() == 1 && f.pinned() & (1u64 << lm[0].from) != 0 {
+                                pinned_only_ep += 1;
+                            }
+                        }
                         if sample.is_empty() {
                             sample = format!("{} prelude {:?}", s.pos.fen(), s.prelude.iter().map(|m| m.uci()).collect::<Vec<_>>());
                         }
                     }
                 }
-                println!("{:2} {:24} {:3}/{} {}", id, harness::synth::SCEN_NAMES[id], ok, n, sample);
+                println!("{:2} {:24} {:3}/{} {}{}", id, harness::synth::SCEN_NAMES[id], ok, n, sample, if id == 18 { format!(" [only move = e.p. by a pinned pawn: {}]", pinned_only_ep) } else { String::new() });
             }
             return;
         }
